@@ -8,6 +8,8 @@
 mod bigrat;
 mod core;
 mod xq;
+mod c01;
+mod c02;
 mod c03;
 
 fn main() {
@@ -26,6 +28,8 @@ fn main() {
         ctx.only = Some(args[5].clone());
     }
     match prop {
+        "C01" => { c01::cases(&mut ctx); c01::preds(&mut ctx); }
+        "C02" => { c02::cases(&mut ctx); c02::preds(&mut ctx); }
         "C03" => { c03::cases(&mut ctx); c03::preds(&mut ctx); }
         _ => { eprintln!("unknown property {}", prop); std::process::exit(2); }
     }
